@@ -38,6 +38,14 @@ PROPS = {
     "C20": dict(level="proof", quick=Q(("resources", 50, 200)), thorough=Q(("resources", 800, 500), ("mixed", 300, 300))),
 }
 
+def level_of(pid):
+    """proof when the property's theorem module exists; otherwise what the correspondence alone gives"""
+    lvl = PROPS[pid]["level"]
+    if lvl == "proof" and not os.path.exists(os.path.join(LEAN, "ArcheProofs", "Props", pid + ".lean")):
+        return "translation_validation"
+    return lvl
+
+
 FORBIDDEN = re.compile(r"\b(sorry|admit|native_decide|bv_decide|implemented_by|unsafe)\b|^axiom\s|maxHeartbeats\s+0")
 ALLOWED_AXIOMS = {"propext", "Classical.choice", "Quot.sound"}
 
@@ -112,14 +120,14 @@ def lean_obligations(pid, work):
         for i, l in enumerate(strip_comments(open(f).read()).split("\n")):
             if FORBIDDEN.search(l):
                 bad.append("%s:%d: %s" % (f, i + 1, l.strip()))
-    ok, out = vlib.lake_build(["ArcheProofs.Props." + pid, "model"])
+    ok, out = vlib.lake_build(["ArcheProofs.Props." + pid, "model", "gencheck"])
     if not ok:
         errs = "\n".join(l for l in out.split("\n") if "error" in l or "rror:" in l)[:4000]
         found = search_failing_input(pid, work, "lake build ArcheProofs.Props.%s failed — a theorem (or a regenerated definition it is about) no longer checks:\n%s\n\nfull log tail:\n%s" % (pid, errs, out[-3000:]))
         viol.append(found)
         return {"coverage": cov, "violations": viol}
     audit = os.path.join(LEAN, "Audit_%s_%d.lean" % (pid, os.getpid()))
-    open(audit, "w").write("import ArcheProofs.Props.%s\n" % pid + AUDIT_BODY % pid)
+    open(audit, "w").write("import Lean\nimport ArcheProofs.Props.%s\n" % pid + AUDIT_BODY % pid)
     try:
         rc, out = vlib.run(["lake", "env", "lean", audit], cwd=LEAN)
     finally:
@@ -128,6 +136,9 @@ def lean_obligations(pid, work):
     for l in out.split("\n"):
         if l.startswith("THM "):
             p = l.split()
+            last = p[2].split(".")[-1]
+            if not p[2].startswith("Arche.Props.") or re.match(r"(eq_\d+|eq_def|match_\d+|proof_\d+|congr_simp|sizeOf_spec|injEq|inj)$", last):
+                continue
             thms.append((p[2], p[3:]))
     cov["obligations"] = len(thms) + 1
     okc = 0 if bad else 1
@@ -287,3 +298,84 @@ def special(pid, tier, seed, harness, work):
 
 def corpus_files(pid):
     return sorted(glob.glob(os.path.join(VERIF, "corpus", "*.ops")))
+
+
+# ---------------------------------------------------------------------------------------------
+# pure-function arm (C04, C12, C16): Go functions vs regenerated Lean definitions vs set oracle
+
+PURE_OPS = {
+    "C04": {"get", "set", "not", "and", "or", "xor", "contains", "containsany", "iszero", "reset", "total", "all", "matches"},
+    "C12": {"subscribes", "lsubscribes", "subscription"},
+    "C16": {"capacity", "capacitynz", "capacityu32"},
+}
+
+
+def pure_arm(pid, tier, seed, work):
+    cov = {"pure_inputs": 0, "pure_builds": []}
+    viol = []
+    n = 4000 if tier == "quick" else 200000
+    gencheck = os.path.join(LEAN, ".lake", "build", "bin", "gencheck")
+    for tags, arg in (("verif", []), ("verif,tiny", ["64"])):
+        ok, log, hb = vlib.build_harness(tags)
+        if not ok:
+            rp = os.path.join(VERIF, "replays", "%s-build-%s.txt" % (pid, tags.replace(",", "-")))
+            open(rp, "w").write("harness does not build with tags %s:\n%s" % (tags, log))
+            viol.append((rp, "no-failing-input-found"))
+            continue
+        inp = os.path.join(work, "pure-%s.in" % tags.replace(",", "-"))
+        subprocess.run([hb, "puregen", str(seed), str(n), inp], check=True)
+        go = subprocess.run([hb, "purerun", inp], stdout=subprocess.PIPE).stdout.decode().split("\n")
+        with open(inp, "rb") as f:
+            lean = subprocess.run([gencheck] + arg, stdin=f, stdout=subprocess.PIPE).stdout.decode().split("\n")
+        lines = open(inp).read().split("\n")
+        cnt = 0
+        for i, l in enumerate(lines):
+            if not l.strip() or l.split()[0] not in PURE_OPS[pid]:
+                continue
+            cnt += 1
+            g = go[i].split("\t") if i < len(go) else ["<missing>", ""]
+            le = lean[i] if i < len(lean) else "<missing>"
+            if len(g) > 1 and g[1] != "" and g[0] != g[1]:
+                rp = os.path.join(VERIF, "replays", "%s-pure-%s.txt" % (pid, tags.replace(",", "-")))
+                open(rp, "w").write("# property %s, build tags %s: the Go function disagrees with the set-semantics definition\n# input line (protocol of harness purerun / lean gencheck):\n%s\n# Go result: %s\n# by definition: %s\n# regenerated Lean definition: %s\n" % (pid, tags, l, g[0], g[1], le))
+                viol.append((rp, ""))
+                break
+            if g[0] != le:
+                rp = os.path.join(VERIF, "replays", "%s-translator-%s.txt" % (pid, tags.replace(",", "-")))
+                open(rp, "w").write("# property %s, build tags %s: the regenerated Lean definition disagrees with the Go function it was translated from (translator validation)\n%s\n# Go result: %s\n# Lean result: %s\n" % (pid, tags, l, g[0], le))
+                viol.append((rp, "no-failing-input-found"))
+                break
+        cov["pure_inputs"] += cnt
+        cov["pure_builds"].append(tags)
+    viol.sort(key=lambda v: 1 if v[1] else 0)
+    cov["pure_rule"] = "Go function, regenerated Lean definition (lean gencheck) and set-semantics oracle evaluated on the same generated inputs: every single ID, ID pairs across word boundaries, random masks / filter expressions to depth 4 / subscription arguments, both builds"
+    return {"coverage": cov, "violations": viol[:1]}
+
+
+def special_C04(tier, seed, harness, work):
+    r = pure_arm("C04", tier, seed, work)
+    c = r["coverage"]
+    c["evaluations"] = c["pure_inputs"]
+    c["distinct_nontrivial"] = c["pure_inputs"]
+    c["samples"] = ["get 1,70,200 70", "matches 1,70 & A 1 ! ANY 200", "contains 0,63,64 64"]
+    return r
+
+
+def search_C04(work, reason):
+    r = pure_arm("C04", "quick", 1, work)
+    hard = [v for v in r["violations"] if not v[1]]
+    if hard:
+        rp = hard[0][0]
+        open(rp, "a").write("\n# found while searching for a failing input after a proof obligation broke:\n# " + reason.replace("\n", "\n# ")[:3000] + "\n")
+        return hard[0]
+    return None
+
+
+def special_C12(tier, seed, harness, work):
+    return pure_arm("C12", tier, seed, work)
+
+
+def search_C12(work, reason):
+    r = pure_arm("C12", "quick", 1, work)
+    hard = [v for v in r["violations"] if not v[1]]
+    return hard[0] if hard else None
